@@ -137,6 +137,8 @@ def run(ctx):
     # kept calls executed several times in one evaluation (loops)
     c01s.run_loops(ctx, res, thorough)
     c01s.run_result_types(ctx, res, thorough)
+    # names bound by import statements inside function bodies: implementation, model (DdsModel/Imports.lean), CPython
+    c01s.run_imports(ctx, res, thorough)
     # the code lives in IPython cells
     c01s.run_notebook(ctx, res, thorough)
     # the order in which the calls of an expression are analysed
